@@ -105,7 +105,7 @@ func ruleReasonSet(rule string) RuleFn {
 		for _, fn := range c.P.Funcs {
 			an.Instrs(fn, func(in ssa.Instruction) {
 				al, ok := in.(*ssa.Alloc)
-				if !ok || al.Comment != "complit" {
+				if !ok || !isConstruction(al) {
 					return
 				}
 				nt, ok := derefNamed(al.Type())
@@ -269,6 +269,24 @@ func ruleEmbedsAll(rule string) RuleFn {
 						// guarded by the Anonymous test only
 						push = true
 					}
+					if k, ok := in.(*ssa.Call); ok {
+						if bi, isB := k.Common().Value.(*ssa.Builtin); isB && bi.Name() == "append" && len(k.Common().Args) == 2 {
+							// a slice used as the work queue: the appended element is the field's type
+							if sl, isS := k.Common().Args[1].(*ssa.Slice); isS {
+								if al, isA := sl.X.(*ssa.Alloc); isA && al.Comment == "varargs" {
+									for _, r := range an.Referrers(al) {
+										if iaddr, isIA := r.(*ssa.IndexAddr); isIA {
+											for _, rr := range an.Referrers(iaddr) {
+												if st2, isSt := rr.(*ssa.Store); isSt && strings.HasSuffix(an.Norm(st2.Val), ".Type") {
+													push = true
+												}
+											}
+										}
+									}
+								}
+							}
+						}
+					}
 					if iff, ok := in.(*ssa.If); ok && !strings.HasSuffix(an.CondString(iff.Cond, false), ".Anonymous") {
 						good, why = false, "a condition other than f.Anonymous decides which fields are followed"
 					}
@@ -408,22 +426,39 @@ func ruleVizIdentity(rule string) RuleFn {
 			ok := false
 			for _, k := range invokeNamed(fn, "updateGraph") {
 				recv := k.Common().Value
-				if ld, isL := recv.(*ssa.UnOp); isL {
-					if ia, isI := ld.X.(*ssa.IndexAddr); isI {
-						if ph, isP := ia.Index.(*ssa.Phi); isP {
-							start, dec := false, false
-							for _, e := range ph.Edges {
-								s := an.Norm(e)
-								if regexp.MustCompile(`^\(len\(.*\) - 1\)$`).MatchString(s) {
-									start = true
-								}
-								if b, isB := e.(*ssa.BinOp); isB && b.Op == token.SUB && b.X == ssa.Value(ph) && an.Norm(b.Y) == "1" {
-									dec = true
-								}
-							}
-							ok = start && dec
-						}
+				ld, isL := recv.(*ssa.UnOp)
+				if !isL {
+					continue
+				}
+				ia, isI := ld.X.(*ssa.IndexAddr)
+				if !isI {
+					continue
+				}
+				// index = φ (starting at len-1) or φ-1 (starting at len), φ decremented each round
+				idx := ia.Index
+				off := 0
+				if b, isB := idx.(*ssa.BinOp); isB && b.Op == token.SUB && an.Norm(b.Y) == "1" {
+					idx, off = b.X, 1
+				}
+				ph, isP := idx.(*ssa.Phi)
+				if !isP {
+					continue
+				}
+				start, dec := false, false
+				for _, e := range ph.Edges {
+					s := an.Norm(e)
+					if off == 0 && regexp.MustCompile(`^\(len\(.*\) - 1\)$`).MatchString(s) {
+						start = true
 					}
+					if off == 1 && regexp.MustCompile(`^len\(.*\)$`).MatchString(s) {
+						start = true
+					}
+					if b, isB := e.(*ssa.BinOp); isB && b.Op == token.SUB && b.X == ssa.Value(ph) && an.Norm(b.Y) == "1" {
+						dec = true
+					}
+				}
+				if start && dec {
+					ok = true
 				}
 			}
 			c.Check(ok, rule, "updateGraph marks failures from the innermost error outwards", "for i := len(errs)-1; i >= 0; i--", "the errors are applied outermost first: the outer wrapper is drawn as root cause and the real cause as a transitive failure", nil, nil)
